@@ -611,6 +611,10 @@ def run_c05(ctx: kernel.Ctx, case: Dict[str, Any]) -> None:
                 fp = parents_of(first)
                 if not fp or not any(means[j] == best for j in fp):
                     ctx.report("C05/first_not_elite", f"with elitism the first member must be the elite; it copies {fp} (means {means})", **w.loc)
+                elif ep and not set(ep) & set(fp):
+                    # "the first member is *that* elite": with a tie for the best mean both must still be copies of the same old member
+                    ctx.report("C05/first_not_elite", f"the returned elite copies member(s) {ep}, the first member of the new population copies {fp} - two different agents "
+                                                      f"(means {means}, tie for the best mean)", tie=True, **w.loc)
                 if fp and first.index not in [pop[j].index for j in fp if means[j] == best]:
                     ctx.report("C05/elite_index", f"elite member carries index {first.index}, the best agents have {[pop[j].index for j in fp]}", **w.loc)
                 members = members[1:]
